@@ -49,7 +49,8 @@ for f in ("cumsum", "cumprod"):
         CALLS.append(("%s/%s" % (f, kw), "F.%s(x%s)" % (f, ", " + kw if kw else "")))
 CALLS += [
     ("sum/empty", "F.sum(e, axis=0)"), ("sum/0d", "F.sum(s)"), ("mean/0d", "F.mean(s)"), ("prod/empty", "F.prod(e, axis=1)"),
-    ("clip", "F.clip(y, -0.5, 0.5)"), ("clip/None", "F.clip(x, None, 0.25)"), ("clip/arrays", "F.clip(y, y[::-1] - 1.0, 2.5)"),
+    ("clip", "F.clip(y, -0.5, 0.5)"), ("clip/None", "F.clip(x, None, 0.25)"), ("clip/arrays", "F.clip(y, y[::-1] - 1.0, 2.5)"), ("clip/out=ndarray", "F.clip(y, -0.5, 0.5, out=O[0])"),
+    ("clip/out=ndarray/lower-only", "F.clip(y, -0.5, None, out=O[0])"),
     ("where", "F.where(M, x, z)"), ("where/tensor-condition", "F.where(MT, x, z)"), ("where/np-on-tensor-condition", "np.where(MT, x, z)"), ("where/scalar", "F.where(M, x, 2.0)"), ("matmul", "F.matmul(x, xt)"), ("matmul/1d", "F.matmul(x, y)"),
     ("einsum", "F.einsum('ij,kj->ik', x, z)"), ("einsum/trace", "F.einsum('ii->', F.matmul(x, xt))"), ("einsum/implicit", "F.einsum('ij,j', x, y)"),
     ("norm", "F.linalg.norm(x, axis=1)"), ("norm/ord1", "F.linalg.norm(x, ord=1, axis=0)"), ("norm/keepdims", "F.linalg.norm(y, keepdims=True)"),
